@@ -1244,3 +1244,69 @@ func scratchGlobals(fn *ssa.Function, isOurs func(*ssa.Global) bool, foreign fun
 	})
 	return
 }
+
+// loopCapturedWrites: closures started as goroutines inside a loop (by a go statement, or by being handed to a function
+// in `wrappers`) that capture a variable declared outside that loop and assigned inside it: the goroutine reads the
+// variable whenever it gets to run, which may be after a later iteration has changed it.
+type capturedWrite struct {
+	Site  ssa.Instruction // the go statement or wrapper call
+	Var   *ssa.Alloc
+	Store *ssa.Store
+}
+
+func loopCapturedWrites(fn *ssa.Function, isWrapper func(*ssa.Function) bool) (out []capturedWrite, nGo int) {
+	loops := naturalLoops(fn)
+	if len(loops) == 0 {
+		return
+	}
+	eachInstr(fn, func(b *ssa.BasicBlock, in ssa.Instruction) {
+		var mcs []*ssa.MakeClosure
+		switch x := in.(type) {
+		case *ssa.Go:
+			if mc, ok := x.Call.Value.(*ssa.MakeClosure); ok {
+				mcs = append(mcs, mc)
+			}
+		case *ssa.Call:
+			if sc := x.Call.StaticCallee(); sc != nil && isWrapper != nil && isWrapper(sc) {
+				for _, a := range x.Call.Args {
+					if mc, ok := a.(*ssa.MakeClosure); ok {
+						mcs = append(mcs, mc)
+					}
+				}
+			}
+		}
+		if len(mcs) == 0 {
+			return
+		}
+		inLoop := false
+		for _, lp := range loops {
+			if lp.Blocks[b] {
+				inLoop = true
+			}
+		}
+		if !inLoop {
+			return
+		}
+		nGo++
+		for _, mc := range mcs {
+			for _, bnd := range mc.Bindings {
+				al, ok := bnd.(*ssa.Alloc)
+				if !ok {
+					continue
+				}
+				for _, lp := range loops {
+					if !lp.Blocks[b] || lp.Blocks[al.Block()] {
+						continue
+					}
+					// declared outside this loop, started inside it: any assignment inside the loop is a later iteration's
+					for _, st := range storesInto(al) {
+						if lp.Blocks[st.Block()] {
+							out = append(out, capturedWrite{in, al, st})
+						}
+					}
+				}
+			}
+		}
+	})
+	return
+}
